@@ -104,7 +104,7 @@ def db_lines(dbm):
         if i == reopen:
             lines += ["[tcp:request]", "label = s:unix:X:y", "[mtu]"]
         ind = ["", "", " ", "\t", "    "][(m + i) % 5]          # parameter lines may be indented
-        lines.append(ind + "label = L%d" % i)
+        lines.append(ind + "label = " + ["L%d", "L%d", "PPPoE: DSL %d", "x:y:%d", ":%d", "L%d:"][(m + 2 * i) % 6] % i)      # an MTU label is free text, colons included
         lines.append(ind + "sig = " + spell(m, i))
         recs.append((len(lines), m))
     return lines, recs
@@ -201,7 +201,7 @@ def impl_init():
                     arg = pkt
             with U.options_as(style, database=db) as kw:
                 r = fingerprint_mtu(arg, **kw)
-            return {"ok": [r.packet_signature.mtu, None if r.match is None else r.match.line_number]}
+            return {"ok": [r.packet_signature.mtu, None if r.match is None else r.match.line_number], "label": None if r.match is None else r.match.label.dump()}
         except PacketError:
             return {"err": "PacketError"}
         except DatabaseError:
@@ -292,6 +292,15 @@ def judge(c, ir, mr):
     if ir.get("no_tcp"):
         return None if (c.get("frag") or c.get("spec", {}).get("frag")) else {"kind": "no TCP layer", "why": str(ir)}
     if "fp" in mr:
+        lab = ir["fp"].pop("label", None) if isinstance(ir["fp"], dict) else None
+        if isinstance(ir.get("refp"), dict):
+            ir["refp"].pop("label", None)
+        if ir["fp"] == mr["fp"] and "ok" in ir["fp"] and ir["fp"]["ok"][1] is not None and c.get("dbm") is not None:
+            # the record found carries the label the FILE gives it: the whole text of the label line above it
+            want_lab = db_lines(c["dbm"])[0][ir["fp"]["ok"][1] - 2].split("=", 1)[1].strip()
+            if lab != want_lab:
+                return {"kind": "MTU fingerprint differs from MSS + header size / first equal record", "why": "the record at line %d is reported with label %r, the file says %r" % (ir["fp"]["ok"][1], lab, want_lab),
+                        "judged_by": "C08_value_first (the record of the file)"}
         if ir["fp"] != mr["fp"]:
             return {"kind": "MTU fingerprint differs from MSS + header size / first equal record", "why": "impl %s model %s" % (ir["fp"], mr["fp"]),
                     "judged_by": "C08_value_first / C08_gate"}
@@ -326,6 +335,9 @@ def judge(c, ir, mr):
     if ir["fields_before"] != ir["fields_after"]:
         return {"kind": "impersonate_mtu changed a header field other than the TCP options", "why": "%s -> %s" % (ir["fields_before"], ir["fields_after"])}
     g = ir.get("gate")
+    if c["mode"] == "built":
+        # what the packet IS is known from how it was built (an extension header does not make an IPv6 datagram a fragment), not taken from the implementation
+        g = {"frag": bool(c.get("frag")) and c["v"] == 4, "type": c["flags"] & 0x17}
     hdr = 40 if ir["ver"] == 4 else 60
     # a packet dissected from the wire keeps its explicit length fields: the round trip is only meaningful when the option area keeps
     # its size, i.e. the base already had an MSS option that is replaced in place
